@@ -10,7 +10,7 @@ import (
 const NTemplates = 8
 
 // NFileTemplates file-passing skeletons follow the NTemplates dataflow ones.
-const NFileTemplates = 4
+const NFileTemplates = 5
 
 func ref(call string, path ...string) *Exp { return &Exp{Kind: ERefCall, Id: call, Path: path} }
 func self(id string, path ...string) *Exp  { return &Exp{Kind: ERefSelf, Id: id, Path: path} }
@@ -193,7 +193,7 @@ func Template(kind int, seed int64, cfg *Config) *Program {
 			},
 			Ret: []Binding{{Id: "yi", Exp: ref("M1", "yi")}, {Id: "kk", Exp: ref("M1", "kk")}, {Id: "n", Exp: ref("COLL", "n")}}}
 		p.Pipelines = []*Pipeline{inner, top}
-	case 8, 9, 10, 11:
+	case 8, 9, 10, 11, 12:
 		// file-passing skeletons: a stage mapped over a run-time sized
 		// collection writes files;
 		//  8: the files are only returned from the top level (no stage consumes them)
@@ -214,6 +214,28 @@ func Template(kind int, seed int64, cfg *Config) *Program {
 				{Callee: "MK", Map: true, Volatile: g.pct(50), Binds: []Binding{{Id: "x", Exp: ref("GENI", "arr"), Split: true}}},
 			}}
 		switch kind {
+		case 12:
+			// statically forked producer (literal map source) whose collection-
+			// typed file outputs are empty in some forks and not in others,
+			// consumed inside the same fork of the enclosing pipeline
+			mk2 := src(&Stage{Name: "MK2", Ins: []Param{{Name: "x", Type: TInt}}, Outs: []Param{{Name: "om", Type: TMapOf(TFile)}, {Name: "af", Type: ArrayOf(TFile)}, {Name: "om2", Type: TMapOf(TFile)}, {Name: "n", Type: TInt}}})
+			cons2 := src(&Stage{Name: "CONS2", Ins: []Param{{Name: "om", Type: TMapOf(TFile)}, {Name: "af", Type: ArrayOf(TFile)}, {Name: "om2", Type: TMapOf(TFile)}}, Outs: []Param{{Name: "y", Type: TInt}}})
+			p.Stages = append(p.Stages, mk2, cons2)
+			inner := &Pipeline{Name: "INNERF", Ins: []Param{{Name: "x", Type: TInt}}, Outs: []Param{{Name: "y", Type: TInt}},
+				Calls: []*Call{
+					{Callee: "MK2", Volatile: true, Binds: []Binding{{Id: "x", Exp: self("x")}}},
+					{Callee: "CONS2", Binds: []Binding{{Id: "om", Exp: ref("MK2", "om")}, {Id: "af", Exp: ref("MK2", "af")}, {Id: "om2", Exp: ref("MK2", "om2")}}},
+				},
+				Ret: []Binding{{Id: "y", Exp: ref("CONS2", "y")}}}
+			arr := &Exp{Kind: EArray}
+			for k := 0; k < 4; k++ {
+				arr.Elems = append(arr.Elems, lit(int64(g.r.Intn(1000))))
+			}
+			top.Calls = []*Call{{Callee: "INNERF", Map: true, Binds: []Binding{{Id: "x", Exp: arr, Split: true}}}}
+			top.Outs = []Param{{Name: "y", Type: ArrayOf(TInt)}}
+			top.Ret = []Binding{{Id: "y", Exp: ref("INNERF", "y")}}
+			p.Stages = p.Stages[3:] // GENI, MK, CONS unused here
+			p.Pipelines = []*Pipeline{inner}
 		case 11:
 			mks := src(&Stage{Name: "MKS", Ins: []Param{{Name: "x", Type: wrap(TInt)}}, Outs: []Param{{Name: "ms", Type: TMapOf(tsf)}, {Name: "arrs", Type: ArrayOf(tsf)}, {Name: "g", Type: TFile}, {Name: "one", Type: tsf}}})
 			p.Stages = append(p.Stages, mks)
@@ -234,7 +256,7 @@ func Template(kind int, seed int64, cfg *Config) *Program {
 			top.Outs = []Param{{Name: "f", Type: wrap(TFile)}, {Name: "y", Type: wrap(TInt)}}
 			top.Ret = []Binding{{Id: "f", Exp: ref("MK", "f")}, {Id: "y", Exp: ref("CONS", "y")}}
 		}
-		p.Pipelines = []*Pipeline{top}
+		p.Pipelines = append(p.Pipelines, top)
 	}
 	if p.Top == nil {
 		p.Top = &Call{Callee: "TOP"}
